@@ -129,6 +129,8 @@ def gen_which(rng, n):
 def gen_pool(rng, max_dice=4, max_faces=4, frac_p=0.1, styles=("unit", "small", "small", "pos", "pos", "big")):
     """a list of raw dice (histogram item lists); shapes: homogeneous, groups, proportional twins, mixed"""
     shape = rng.choice(["hom", "hom", "groups", "twins", "mixed", "mixed", "nested"])
+    if shape == "nested" and (max_dice < 3 or max_faces < 4):
+        shape = "mixed"          # callers that ask for tiny pools (sources of recursive mechanics) get tiny pools
     nd = rng.randint(1, max_dice)
 
     def die():
